@@ -185,7 +185,7 @@ impl<'a> Context<'a> {
 //@   ret r
 //@   spec
         ensures *r.0 == self.tok(), //# C13 ctx.peek_is_current_token
-            r.1 == self.span_s(),
+            r.1 == self.span_s(), //# C07 peek.spec.aux1
 //@   endspec
 //@ end
 
@@ -203,7 +203,7 @@ impl<'a> Context<'a> {
 //@   props C07
 //@   ret r
 //@   spec
-        ensures r == self.span_s(),
+        ensures r == self.span_s(), //# C07 span.spec.aux1
 //@   endspec
 //@ end
 
@@ -230,7 +230,7 @@ impl<'a> Context<'a> {
 //@   props C07
 //@   ret r
 //@   spec
-        ensures r.0.tokens == self.tokens,
+        ensures r.0.tokens == self.tokens, //# C07 push_skip_newlines.spec.aux1
 //@   endspec
 //@ end
 
@@ -248,7 +248,7 @@ impl<'a> Context<'a> {
 //@   props C07
 //@   ret r
 //@   spec
-        ensures r.tokens == self.tokens,
+        ensures r.tokens == self.tokens, //# C07 skip_if.spec.aux1
             self.tok() != token ==> r == *self, //# C13 ctx.skip_if_stays
 //@   endspec
 //@ end
@@ -269,7 +269,7 @@ impl Span {
 //@   props C07
 //@   ret r
 //@   spec
-        ensures r == (Span { file_id, line_start: 0, line_end: 0, col_start: 0, col_end: 0 }),
+        ensures r == (Span { file_id, line_start: 0, line_end: 0, col_start: 0, col_end: 0 }), //# C07 zero.spec.aux1
 //@   endspec
 //@ end
 }
@@ -280,7 +280,7 @@ impl Identifier {
 //@   props C07
 //@   ret r
 //@   spec
-        ensures r.span == span, r.name == name,
+        ensures r.span == span, r.name == name, //# C07 new.spec.aux1
 //@   endspec
 //@ end
 }
@@ -531,7 +531,7 @@ impl Next for Prec {
         requires pe_shape(lhs), pe_shape(rhs), //# C07 prepend.pre.shape
         ensures r is Ok ==> top_rank(r->Ok_0.1) == 100 && wf(r->Ok_0.1), //# C13 prepend.atom
             r is Ok ==> pe_shape(r->Ok_0.1), //# C07 prepend.result_shape
-            r is Ok ==> r->Ok_0.1.span == ctx.span_s() && r->Ok_0.1.ty is None,
+            r is Ok ==> r->Ok_0.1.span == ctx.span_s() && r->Ok_0.1.ty is None, //# C07 arrow_call.spec.aux1
             r is Ok ==> Some(r->Ok_0.1.kind) == prepend_kind(ctx.span_s(), lhs, rhs), //# C14 prepend.receiver_becomes_the_first_argument_of_the_innermost_call
             r is Err <==> prepend_kind(ctx.span_s(), lhs, rhs) is None, //# C14 prepend.only_calls_can_follow_an_arrow
 //@   endspec
